@@ -14,6 +14,12 @@ Streams (model `Wpull.Path` vs the real code in the wpull checkout):
             through each entry point, pairs differing in case / max_length, random interleavings.
             Oracle per call against the settings of THAT call; correspondence per call with the pure
             model (= the result does not depend on what was called before).
+  argv      the file writer built from a real command line (AppArgumentParser -> Builder factory ->
+            FileWriterSetupTask._build_file_writer): every subset / order of --restrict-file-names modes, the
+            option absent, repeated; x --content-disposition, -nd/-x/-nH/--cut-dirs/-P/-E/...; hostile FTP
+            names, URL paths and Content-Disposition values through the writer session (open_file
+            intercepted); containment oracle against the user's option list; correspondence of the
+            option glue with the model (`optionsToCfg`, `useDirOf`).
   urlcache  oracle only: wpull.url.percent_encode with never-seen encode sets in random order vs its definition
   writer    oracle only: the four real file-writer sessions in a scratch directory
             (existing files / directories in the way, hostile Content-Disposition,
@@ -42,7 +48,8 @@ RULE = ('name: raw URLs assembled from scheme x userinfo x host x port x 0-5 pat
         'x use_dir x cut{None,0..3,10} x protocol x hostname x root; safe/cd: names from the same alphabet; '
         'Content-Disposition values from a header grammar with hostile names; history: call sequences with different '
         'restriction settings in one process from a fresh wpull.path (all ordered pairs of os x nocontrol x ascii through '
-        'safe_filename / ftp get_filename / Content-Disposition rename, random interleavings), the safe stream is shuffled. non-trivial = the case reaches the '
+        'safe_filename / ftp get_filename / Content-Disposition rename, random interleavings), the safe stream is shuffled; argv: real command lines over all 63 subsets of --restrict-file-names modes + absent + repeated x '
+        'directory options x --content-disposition, random option mixes. non-trivial = the case reaches the '
         'sanitiser with a non-empty name; distinct by (input, configuration)')
 TRUSTED = ['importlib.reload(wpull.path / wpull.url) gives the module-level state of a new process (history / urlcache streams)',
            'urllib.parse.urlsplit/.hostname/.port, urllib.parse.unquote, posixpath.join/dirname are mirrored '
@@ -51,8 +58,9 @@ TRUSTED = ['importlib.reload(wpull.path / wpull.url) gives the module-level stat
            'from the real run (wpull.path.re proxy) and passed to the model; the theorems hold for every value',
            'hashlib.sha1().hexdigest() is 40 lower-case hex digits (checked on every logged digest)',
            'ipaddress / NFKC verdicts inside urlsplit are parameters (Ext); the theorems hold for both values']
-ASSUMPTIONS = ['os_type is "unix" or "windows" (FileWriterSetupTask builds nothing else); for any other string "/" is '
-               'not escaped (theorem other_os_not_contained)',
+ASSUMPTIONS = ['a PathNamer constructed directly gets os_type "unix" or "windows"; for any other value "/" is not escaped '
+               '(theorem other_os_not_contained).  For the namer the application builds from argv this is proved '
+               '(options_os_known over the model of FileWriterSetupTask, tied by the argv stream)',
                'the index name (--default-page) is not empty',
                'str.lower()/str.upper() map a non-ASCII code point to a non-empty string of non-ASCII code points '
                'and ASCII letters (checked exhaustively over all 0x110000 code points on every run); strings whose '
@@ -964,6 +972,202 @@ def replay_urlcache(ctx, real, calls):
             return
 
 
+# ------------------------------------------------------------------ stream: argv (the writer as the application builds it)
+MODES = ['windows', 'unix', 'lower', 'upper', 'ascii', 'nocontrol']
+ARGV_FTP = ['ftp://example.com/pub/a%2F..%2F..%2F..%2Fx', 'ftp://example.com/%2E%2E%2F%2E%2E%2Fetc%2Fpasswd',
+            'ftp://example.com/pub/%2Fabs', 'ftp://example.com/d%2F/f%00', 'ftp://example.com/pub/nl%0Aesc%1B',
+            'ftp://example.com/pub/%2E%2E/x', 'ftp://example.com/a/b%5C..%5Cc', 'ftp://example.com/A/B%2fC/']
+ARGV_HTTP = ['http://example.com/a/b.txt', 'http://example.com/', 'https://example.com/d/e?q=/../x', 'http://example.com/A/%2E%2E/b']
+ARGV_HEADERS = ['attachment; filename="../../../x"', 'attachment; filename=/etc/passwd', 'attachment; filename=a/b/c',
+                'attachment; filename="..\\..\\x"', 'attachment; filename=..', 'attachment; filename="t\tb\x1b[0m"',
+                'attachment; filename="dir/../../y.html"', 'attachment; filename=Ok.TXT']
+
+
+class _Quiet:
+    """argparse writes usage text to stderr before SystemExit; wpull's imports print notices"""
+
+    def __enter__(self):
+        import io
+        import sys
+        self.saved = sys.stdout, sys.stderr
+        sys.stdout, sys.stderr = io.StringIO(), io.StringIO()
+
+    def __exit__(self, *a):
+        import sys
+        sys.stdout, sys.stderr = self.saved
+
+
+def argv_of(case, scratch_root):
+    argv = list(case['urls'])
+    for ms in case['modes']:            # a list of --restrict-file-names occurrences (usually zero or one)
+        argv.append('--restrict-file-names=' + ','.join(ms))
+    argv += list(case['opts'])
+    if case['prefix'] is not None:
+        argv += ['-P', case['prefix'].replace('<ROOT>', scratch_root)]
+    return argv
+
+
+def build_writer_from_argv(real, argv):
+    """the file writer exactly as the application builds it: real option parser, real factory, real setup task"""
+    import io
+    with _Quiet():
+        from wpull.application.builder import Builder
+        from wpull.application.options import AppArgumentParser
+        from wpull.application.tasks.writer import FileWriterSetupTask
+        from wpull.pipeline.app import AppSession
+        args = AppArgumentParser().parse_args(argv)
+        builder = Builder(args)
+        session = AppSession(builder.factory, args, io.StringIO())
+        writer = FileWriterSetupTask._build_file_writer(session)
+    return args, writer
+
+
+def check_argv(ctx, real, scratch, case, pending):
+    """One run: build the writer from argv, push one URL (+ header) through its session, nothing may be
+    opened outside the directory prefix.  Also the correspondence of the option glue (model `opts`)."""
+    root_dir = os.path.join(scratch, 'o', 'i', 'root')
+    shutil.rmtree(os.path.join(scratch, 'o'), ignore_errors=True)
+    os.makedirs(root_dir)
+    argv = argv_of(case, root_dir)
+    key = ('argv', tuple(map(tuple, case['modes'])), tuple(case['opts']), case['prefix'], tuple(case['urls']),
+           case['header'], case.get('status', 200), case.get('ctype'))
+    try:
+        args, writer = build_writer_from_argv(real, argv)
+    except SystemExit:
+        ctx.case(key, nontrivial=False, tags=['argv:rejected-by-parser'])
+        return
+    namer = getattr(writer, '_path_namer', None)
+    if namer is None:
+        ctx.case(key, nontrivial=False, tags=['argv:no-file-writer'])
+        return
+    # the user's settings, read off the option list itself (last occurrence wins in argparse)
+    modes = set(case['modes'][-1]) if case['modes'] else {'unix'}
+    cfg = {'no_control': 'nocontrol' not in modes, 'os_type': 'windows' if 'windows' in modes else 'unix'}
+    root = args.directory_prefix
+    # correspondence of the glue
+    dopt = {'force': 'force', 'no': 'no'}.get(args.use_directories, 'unset')
+    req = 'path opts %s %d %d %s %s %s' % (enc(sorted(MODES.index(m) for m in modes)), args.max_filename_length or 0,
+                                          len(args.urls), 'T' if args.page_requisites else 'F',
+                                          'T' if args.recursive else 'F', dopt)
+    os_real = namer._os_type if namer._os_type in ('unix', 'windows') else 'other'
+    realtok = '%s %s %s %s %d %s' % (os_real, 'T' if namer._no_control else 'F', 'T' if namer._ascii_only else 'F',
+                                     namer._case or 'none', namer._max_filename_length or 0, 'T' if namer._use_dir else 'F')
+    pending.append((req, realtok, dict(case)))
+    # the session
+    raw = case['urls'][0]
+    opened = []
+    try:
+        if raw.startswith('ftp:'):
+            from wpull.protocol.ftp.request import Request as FRequest, Response as FResponse
+            request = FRequest(raw)
+            response = FResponse()
+            response.request = request
+        else:
+            request, response = make_response(real, raw, case['header'], status=case.get('status', 200),
+                                              content_type=case.get('ctype'))
+        session = writer.session()
+
+        def open_file(filename, response, mode='wb+'):
+            opened.append(filename)
+        session.open_file = open_file
+        session.process_request(request)
+        chosen = session._filename
+        session.process_response(response)
+        final = session._filename
+        outcome = 'ok'
+    except Exception as e:
+        outcome = exc_name(e)
+        chosen = final = None
+    ctx.case(key, tags=['argv:' + type(writer).__name__, 'argv:' + outcome, 'argv:os=' + os_real,
+                        'argv:modes=%s' % ('absent' if not case['modes'] else len(modes))])
+    if args.default_page == '':
+        return
+    for what, path in [('chosen', chosen), ('final', final)] + [('opened', p) for p in opened]:
+        if not path:
+            continue
+        shown_root = root
+        if root in ('.', ''):
+            shown_root = ''
+            if path.startswith('./'):
+                path = path[2:]
+        p = containment_problem(path, shown_root, cfg)
+        if p is None and cfg['os_type'] == 'windows':
+            prefix = shown_root if (shown_root == '' or shown_root.endswith('/')) else shown_root + '/'
+            if any(c in WINCHARS.replace('/', '') for c in path[len(prefix):]):
+                p = 'Windows-reserved character below the prefix in %r' % path
+        if p:
+            ctx.fail('escapes-prefix', 'argv_writer', dict(case),
+                     'wpull %s: %s filename: %s' % (' '.join(argv).replace(scratch, '<scratch>'), what,
+                                                   p.replace(scratch, '<scratch>')))
+            return
+
+
+def argv_cases(rng, n_random):
+    cases = []
+
+    def mk(modes, opts, prefix, url, header=None, extra_urls=(), status=200, ctype=None):
+        return {'stream': 'argv', 'modes': modes, 'opts': opts, 'prefix': prefix, 'urls': [url] + list(extra_urls),
+                'header': header, 'status': status, 'ctype': ctype}
+    # every subset of the modes (in a random order), and the option absent
+    subsets = [[m for i, m in enumerate(MODES) if k >> i & 1] for k in range(1, 64)]
+    for sub in [None] + subsets:
+        for dirs in ([], ['-nd'], ['-x']):
+            ms = []
+            if sub is not None:
+                sub = list(sub)
+                rng.shuffle(sub)
+                ms = [sub]
+            cases.append(mk(ms, dirs, '<ROOT>', rng.choice(ARGV_FTP)))
+            cases.append(mk(ms, dirs + ['--content-disposition'], '<ROOT>', rng.choice(ARGV_HTTP), rng.choice(ARGV_HEADERS)))
+    cases.append(mk([['ascii', 'ascii']], [], '<ROOT>', ARGV_FTP[0]))
+    cases.append(mk([['windows'], ['lower']], ['-x'], '<ROOT>', ARGV_FTP[0]))        # the last occurrence replaces the first
+    cases.append(mk([['nocontrol'], ['unix', 'upper']], ['-x'], '<ROOT>', ARGV_FTP[4]))
+    pool = ['--content-disposition', '--content-disposition', '-nd', '-x', '-nH', '--cut-dirs=1', '--cut-dirs=3',
+            '--protocol-directories', '-E', '-r', '-p', '--max-filename-length=8', '--max-filename-length=40',
+            '--default-page=i', '--trust-server-names', '-N', '-nc', '-c', '--no-clobber']
+    for _ in range(n_random):
+        r = rng.random()
+        if r < 0.15:
+            ms = []
+        else:
+            sub = [m for m in MODES if rng.random() < 0.4]
+            rng.shuffle(sub)
+            ms = [sub] if sub else [[rng.choice(MODES)]]
+            if rng.random() < 0.1:
+                ms.append([rng.choice(MODES)])
+        opts = [o for o in pool if rng.random() < 0.2]
+        prefix = rng.choice(['<ROOT>', '<ROOT>', '<ROOT>/sub', '<ROOT>/', None])
+        extra = ['http://other.example/'] if rng.random() < 0.3 else []
+        if rng.random() < 0.5:
+            k = rng.choice([1, 2, 3])
+            url = 'ftp://example.com/' + '/'.join(gen_seg(rng) for _ in range(k)) + rng.choice(['', '/'])
+            cases.append(mk(ms, opts, prefix, url, None, extra))
+        else:
+            k = rng.choice([0, 1, 2])
+            url = rng.choice(['http', 'https']) + '://example.com/' + '/'.join(gen_seg(rng) for _ in range(k)) + rng.choice(['', '/', '?a=/..'])
+            cases.append(mk(ms, opts, prefix, url, gen_header(rng) if rng.random() < 0.85 else None, extra,
+                            rng.choice([200, 200, 404]), rng.choice([None, 'text/html', 'text/css'])))
+    return cases
+
+
+def stream_argv(ctx, real, cases):
+    scratch = tempfile.mkdtemp(prefix='c15-')
+    pending = []
+    try:
+        for case in cases:
+            try:
+                check_argv(ctx, real, scratch, case, pending)
+            except (UnicodeError, ValueError) as e:      # a generated URL the request classes refuse
+                ctx.case(('argv-skip', repr(case)), nontrivial=False, tags=['argv:unparseable'])
+    finally:
+        shutil.rmtree(scratch, ignore_errors=True)
+    for (req, realtok, case), rep in zip(pending, ctx.model.ask([q for q, _, _ in pending])):
+        if rep != realtok:
+            ctx.disagree('argv', case, rep, realtok)
+    if cases:
+        ctx.sample(cases[0])
+
+
 # ------------------------------------------------------------------ entry points
 def load_corpus(ctx):
     import glob
@@ -996,6 +1200,8 @@ def replay(ctx, case, kind=None, where=None):
         stream_split(ctx, [case['url']])
     elif s == 'join':
         stream_join(ctx, [(case['root'], case['parts'])])
+    elif s == 'argv':
+        stream_argv(ctx, real, [case])
     elif s == 'history':
         stream_history(ctx, real, [case['calls']])
     elif s == 'urlcache':
@@ -1030,6 +1236,9 @@ def run(ctx):
     # order of use inside one process (module-level caches): every sequence starts from a fresh wpull.path
     stream_history(ctx, real, history_sequences(ctx.subrng('history'), ctx.scale(400, 8000)))
     stream_urlcache(ctx, real, ctx.subrng('urlcache'), ctx.scale(300, 5000))
+
+    # the writer built by the application from argv (option glue)
+    stream_argv(ctx, real, argv_cases(ctx.subrng('argv'), ctx.scale(1500, 12000)))
 
     # library mirrors
     strings = [gen_seg(rng) + rng.choice(['', gen_seg(rng)]) for _ in range(ctx.scale(3000, 60000))]
@@ -1110,6 +1319,7 @@ def search(ctx):
     real = Real.get(ctx)
     rng = ctx.subrng('search')
     stream_history(ctx, real, history_sequences(rng, ctx.scale(50, 250)))
+    stream_argv(ctx, real, argv_cases(rng, ctx.scale(100, 500)))
     stream_safe(ctx, real, [(gen_safe_cfg(rng), gen_name(rng)) for _ in range(ctx.scale(2000, 10000))])
     stream_name(ctx, real, [(gen_namer_cfg(rng), gen_raw_url(rng)) for _ in range(ctx.scale(3000, 15000))])
     stream_cd(ctx, real, [(gen_safe_cfg(rng), 'dl/h/a', 'http://h/a', gen_header(rng)) for _ in range(ctx.scale(1000, 5000))])
